@@ -8,6 +8,7 @@
 import IocProofs.Lemmas.TagTotal
 import IocProofs.Lemmas.TagRound
 import IocProofs.Lemmas.TagConsume
+import IocProofs.Lemmas.SemArgs
 namespace Ioc.C19
 open Ioc Ioc.Tag
 
@@ -304,5 +305,79 @@ example : WFArg (kTimeLayout, [ofString "(2006-01-02 15:04)"]) := ⟨by decide, 
 example : timeParse (ofString "02.01.2006") (ofString "31.02.2024") = .err := by decide
 example : timeParse (ofString "Jan 2") (ofString "Feb 3") = .unmodelled := by decide
 example : find (setArg [] (ofString "x") [ofString "a", [], ofString "b"]) (ofString "X") = some [ofString "a", [], ofString "b"] := by decide
+
+/-! ### the REGENERATED tag-argument functions (component_definition/arg.go)
+
+    `Parse`, `Set`, `Add`, `formatArgType`, `Find`, `Has`, `isIntersect` as they are in /repo now, under the interpretation
+    Ioc.SemArgs (the receiver — a Go map — is an association list, the string operations `strings2.Split`, `strings.Index`,
+    slicing and `strings.ToUpper` are parameters).  `Ioc.Tag` (`parse?`, `find`, `has`, `formatArgType?`) is the byte-level
+    instance of exactly these functions: the value part is what precedes the first top-level comma, every further part is ONE
+    argument (bare name ⇒ the single empty value; `name=a b` ⇒ the blank-separated values), names are stored with their first
+    letter in upper case, a later `Set` replaces, `Find` hands the stored values out AS STORED, `Has` = stored ∧ (nothing wanted ∨
+    intersection). -/
+section code
+open Ioc.Go Ioc.Sem
+
+theorem C19_code_Parse (o : StrOps) (tag : String) (w : SetLog) :
+    run (parsePrims o) Progs.arg_Parse [.str tag] w =
+      some (.str (o.splitC tag).1, w ++ (o.splitC tag).2.map (parseArg o)) :=
+  argParse_sem o tag w
+
+theorem C19_code_Set_Add (o : StrOps) (k : String) (vs : List String) (w : AM) :
+    run (argPrims o) Progs.arg_Set [.str k, strsVal vs] w =
+      some (.tuple [], if k = "" then w else amSet (o.fmtKey k) vs w) ∧
+    run (argPrims o) Progs.arg_Add [.str k, strsVal vs] w =
+      some (.tuple [], if k = "" then w else amSet (o.fmtKey k) ((amGet (o.fmtKey k) w).getD [] ++ vs) w) :=
+  ⟨argSet_sem o k vs w, argAdd_sem o k vs w⟩
+
+theorem C19_code_formatArgType (o : StrOps) (k : String) (w : AM) :
+    run (argPrims o) Progs.arg_formatArgType [.str k] w = some (.str (o.upper (o.takeS k 1) ++ o.dropS k 1), w) :=
+  argFmt_sem o k w
+
+theorem C19_code_Find_Has (o : StrOps) (k : String) (wants : List String) (w : AM) :
+    run (argPrims o) Progs.arg_Find [.str k] w =
+      some (match amGet (o.fmtKey k) w with
+            | some l => .tuple [strsVal l, .bool true]
+            | none => .tuple [.nil, .bool false], w) ∧
+    run (argPrims o) Progs.arg_Has [.str k, strsVal wants] w =
+      some (.bool (match amGet (o.fmtKey k) w with
+                   | none => false
+                   | some l => wants.isEmpty || l.any (fun x => wants.contains x)), w) :=
+  ⟨argFind_sem o k w, argHas_sem o k wants w⟩
+
+theorem C19_code_isIntersect (a b : List String) :
+    run noPrims Progs.arg_isIntersect [strsVal a, strsVal b] () = some (.bool (a.any (fun x => b.contains x)), ()) :=
+  argIsIntersect_sem a b
+
+/-- what was set under a name is what Find finds under it, whatever else was set under other names -/
+theorem C19_code_set_then_get (k k' : String) (v : List String) (m : AM) :
+    amGet k (amSet k v m) = some v ∧ (k' ≠ k → amGet k' (amSet k v m) = amGet k' m) := by
+  constructor
+  · induction m with
+    | nil => simp [amSet, amGet]
+    | cons e rest ih =>
+      obtain ⟨a, b⟩ := e
+      by_cases h : a = k
+      · simp [amSet, amGet, h]
+      · have h' : (a == k) = false := by simpa using h
+        simp only [amSet, h, if_false, amGet, List.find?_cons, h']
+        exact ih
+  · intro hne
+    induction m with
+    | nil =>
+      have : (k == k') = false := by simpa using Ne.symm hne
+      simp [amSet, amGet, this]
+    | cons e rest ih =>
+      obtain ⟨a, b⟩ := e
+      by_cases h : a = k
+      · subst h
+        have : (a == k') = false := by simpa using Ne.symm hne
+        simp [amSet, amGet, this]
+      · simp only [amSet, h, if_false, amGet, List.find?_cons]
+        cases hak : (a == k')
+        · exact ih
+        · rfl
+
+end code
 
 end Ioc.C19
